@@ -1213,3 +1213,45 @@ def c16_r(ctx):
                     yield bad("C16-R", key, at(f), "receive can return %s, which is not the result of decoding the datagram just received: a PDU from earlier input can be delivered for a datagram that does not contain it" % what)
     if n == 0:
         raise Anchor("C16-R", "Ok(pdu) returned by an impl of PDUTransport::receive")
+
+
+# ================================================================ C20-P6: progress is read when it is reported
+SNAPSHOT_OK = {
+    "self.nak_received_file_size": "compared with the counter to tell whether data arrived since the last NAK; never shown to anybody (C20-P1 checks what is shown)",
+}
+
+
+@rule("C20", "C20-P6", 2, "a progress figure is read from the counter when it is reported: no transaction field other than the counter itself holds a copy of it (a stored copy goes stale while data keeps arriving)")
+def c20_p6(ctx):
+    from common import field_writes
+
+    n = 0
+    for adt, counter in ((RECV, "self.received_file_size"), (SEND, "self.sent_file_size")):
+        nm = adt.split("::")[-1]
+        fns = impl_and_closures(ctx, adt)
+        found = []
+        for f in fns:
+            if f.name == "new":
+                continue
+            eb = ExprBuilder(ctx.prog, f)
+            for b in f.live_blocks():
+                for s in f.blocks[b]["stmts"]:
+                    if s["k"] != "assign":
+                        continue
+                    ps = f.place_str(s["place"])
+                    if not ps.startswith("self.") or ps == counter or ps.startswith(counter + "."):
+                        continue
+                    e = eb.rvalue(s["rv"])
+                    txt = expr_str(e)
+                    if counter in places_in(e) or "::get_progress(" in txt:
+                        found.append((f, s["span"]["line"], ps.split("@")[0]))
+        n += 1
+        key = "%s:stored-progress" % nm
+        extra = [(f, l, ps) for f, l, ps in found if ps not in SNAPSHOT_OK]
+        if extra:
+            f, l, ps = extra[0]
+            yield bad("C20-P6", key, at(f, l), "%s keeps a copy of the progress figure in %s: what is later reported from it is the progress at the time of the copy, not the bytes held (or sent) when the report is made" % (f.name, ps))
+        else:
+            yield ok("C20-P6", key, "-", {"copies": sorted({ps for _f, _l, ps in found})})
+    if n == 0:
+        raise Anchor("C20-P6", "transactions")
